@@ -356,6 +356,27 @@ func cliExit(r *Run) {
 		}
 	}
 	rw.Sync()
+	if !indexBadState(state) && t.Bool(1, 8, "symlinked-recovery-files") {
+		// the recovery files live in another directory and are reachable
+		// through symbolic links beside the index (annex-style layout)
+		store := rw.Real("/elsewhere/store")
+		os.MkdirAll(store, 0755)
+		n := 0
+		for _, p := range recPaths {
+			real := rw.Real(p)
+			if _, err := os.Lstat(real); err != nil {
+				continue
+			}
+			target := filepath.Join(store, filepath.Base(p))
+			if os.Rename(real, target) == nil && os.Symlink(target, real) == nil {
+				n++
+			}
+		}
+		if n > 0 {
+			r.Logf("state: %d recovery files replaced by symbolic links", n)
+			r.Probe("symlinked-recovery-files")
+		}
+	}
 
 	// reference expectation
 	needed := !w.AllIntact()
